@@ -62,6 +62,20 @@ def _mk_staticmethod(name, slot):
     return staticmethod(meth)
 
 
+class _Toggle:
+    """callable guard object whose own truthiness is False"""
+
+    def __init__(self, fn, name):
+        self._fn = fn
+        self.__name__ = name
+
+    def __call__(self):
+        return self._fn()
+
+    def __bool__(self):
+        return False
+
+
 def _mk_coro(name, slot):
     async def meth(self):
         LOG.append(slot)
@@ -116,6 +130,9 @@ def build_machine(scn, lay):
                 return _box["v"]
             # distinct callables may share a __name__ (lambdas, closures of one factory)
             f.__name__ = "check" if scn.get("same_free_names") else n
+            if scn.get("falsy_callables"):
+                # a callable *object* that is itself falsy (a feature toggle with __bool__): it is still a guard
+                f = _Toggle(f, f.__name__)
             free[n] = f
             values[sid] = ("box", box, None)
             continue
@@ -155,10 +172,14 @@ def build_machine(scn, lay):
                 ref = getattr(type(objs[p]), n)   # property object / function of the model class
         (conds if en["group"] == "cond" else unlesses).append(ref)
     ns["a"], ns["b"] = a, b
+    def arg(lst):      # a single entry may be given without a list
+        if not lst:
+            return None
+        return lst[0] if len(lst) == 1 and scn.get("falsy_callables") else lst
     if scn.get("via_any"):
-        ns["go"] = b.from_.any(cond=conds or None, unless=unlesses or None)
+        ns["go"] = b.from_.any(cond=arg(conds), unless=arg(unlesses))
     else:
-        ns["go"] = a.to(b, cond=conds or None, unless=unlesses or None)
+        ns["go"] = a.to(b, cond=arg(conds), unless=arg(unlesses))
     ns["back"] = b.to(a)
     if scn.get("force_async"):
         async def on_enter_b(self):
@@ -225,8 +246,39 @@ def run_impl(scn, lay):
             except Exception as e:  # noqa: BLE001
                 out += "+broken:" + type(e).__name__
             rounds.append((out, reads))
-    return dict(construct="ok", rounds=rounds,
+        # a second instance of the same class over the default model and without listeners: names that only
+        # the first instance's model / listeners provided are unknown *for this instance* and must be rejected
+        # when it is instantiated, again
+        second = None
+        if all(en["kind"] == "expr" for en in scn["entries"]) and not scn.get("malformed"):
+            try:
+                type(sm)()
+                second = "ok"
+            except InvalidDefinition:
+                second = "InvalidDefinition"
+            except Exception as e:  # noqa: BLE001
+                second = "Other:" + type(e).__name__
+    return dict(construct="ok", rounds=rounds, second=second,
                 warnings=[str(w.message)[:80] for w in wlist if "never awaited" in str(w.message)])
+
+
+def second_instance_expectation(scn):
+    """Spec for the second instantiation: rejected iff some name used in a guard expression has no provider
+    left (only the machine itself remains)"""
+    import ast
+    used = set()
+    for en in scn["entries"]:
+        if en["kind"] != "expr":
+            return None
+        try:
+            used |= set(G.names_of(ast.parse(en["canon"], mode="eval")))
+        except SyntaxError:
+            return None
+    for n in used:
+        provs = [p for p, _ in scn["names"].get(n, [])]
+        if "machine" not in provs:
+            return "InvalidDefinition"
+    return "ok"
 
 
 # ----------------------------------------------------------------------------- CPython as the Spec
